@@ -344,7 +344,9 @@ func escapeString(token string) string {
 	// check if token contains characters that need to be escaped
 	if strings.ContainsAny(token, "()\"\\\t\r\n ") {
 		// put the token in parenthesis and only escape \ and "
-		return fmt.Sprintf("\"%s\"", strings.ReplaceAll(token, "\"", "\\\""))
+		token = strings.ReplaceAll(token, "\\", "\\\\")
+		token = strings.ReplaceAll(token, "\"", "\\\"")
+		return fmt.Sprintf("\"%s\"", token)
 	}
 	return token
 }
